@@ -477,6 +477,9 @@ pub fn gen_reclaim(seed: u64, property: &str) -> Plan {
     // lazy consumers leave data behind; eager ones drain often
     let eager = rng.chance(0.6);
     let cap_mode = rng.chance(0.3);
+    // at most a few of the 900-2000-entry batches per plan: a plan with dozens of them spends a minute of wall
+    // clock in the final read_next drain (four index I/O events per entry) and adds nothing
+    let mut cap_left = 4u32;
     for inc_i in 0..n_inc {
         let mut ops = vec![open_op(&mut ids)];
         let rounds = rng.range(3, 9);
@@ -485,7 +488,8 @@ pub fn gen_reclaim(seed: u64, property: &str) -> Plan {
             let burst = rng.range(4, 14);
             for _ in 0..burst {
                 let t = rng.below(n_topics as u64) as u32;
-                if cap_mode && rng.chance(0.2) {
+                if cap_mode && rng.chance(0.2) && cap_left > 0 {
+                    cap_left -= 1;
                     // more pending entries than one batch read may return (2000): the read stops
                     // inside a block although its budget covered all of them
                     let n = rng.range(900, 2000);
